@@ -166,6 +166,36 @@ def sel_case(acc, c):
                     named = set(Ri or ()) | set(Xi or ()) | set(Ti or ())
                     if k == "run" and (named & set(c["debug"]) or c["debug"]):
                         acc.mark_nontrivial((repr(c), repr((Ri, Xi, Ti))))
+        # executors that run "everything node t depends on" (cache_deps_of): the same debug rule applies
+        if c["debug"] and not c.get("fresh_each"):
+            import os
+            tmpd = os.environ.get("VERIF_TMP", "/tmp")
+            for t in range(n):
+                path = os.path.join(tmpd, f"c13-{os.getpid()}.pkl")
+                d2, _ns2 = build_gprog(p)
+                res = H.run_controlled(lambda: d2.executor(cache_deps_of=[ids[t]], cache_in=path)())
+                acc.evaluations += 1
+                ent = sorted(e[1] for e in res.trace if e[0] == "enter")
+                anc = p.anc(t) | {t}
+                if t in c["debug"] and not c["debug_on"]:
+                    # naming a disabled debug node: refused, or (a part of) its production ancestors run - never a debug node
+                    want = sorted(ids[i] for i in anc if i not in c["debug"])
+                    ok = (res.outcome == "raise" and not ent) or (res.outcome == "return" and set(ent) <= set(want))
+                    want = f"a subset of {want} (or a refusal)"
+                elif not c["debug_on"]:
+                    want = sorted(ids[i] for i in anc if i not in c["debug"])
+                    ok = res.outcome == "return" and ent == want
+                else:
+                    want = sorted(ids[i] for i in anc)
+                    ok = res.outcome == "return" and set(want) <= set(ent) and all(ids.index(x) in c["debug"] for x in set(ent) - set(want))
+                acc.mark_nontrivial((repr(c), "cache_deps_of", t))
+                if not ok:
+                    acc.violation(V("cache_deps_of_debug", f"executor(cache_deps_of=[{ids[t]}]) with RUN_DEBUG_NODES={c['debug_on']} (debug nodes {[ids[i] for i in c['debug']]}) entered {ent} "
+                                    f"({res.outcome} {res.exc!r}), expected {want}", debug_on=c["debug_on"]), dict(c, t=t), (), res.trace, p.source())
+                try:
+                    os.remove(path)
+                except OSError:
+                    pass
         acc.states += sum(stats.values())
         acc.transitions += sum(stats.values())
         for k, v in stats.items():
